@@ -936,7 +936,16 @@ func (g *gen) forLoop(d int) *Node {
 		}
 		for w := g.pick(3, "jwrap"); w > 0; w-- {
 			g.feat("jump-crosses-scope")
-			switch g.pick(3, "jwk") {
+			switch g.pick(5, "jwk") {
+			case 3, 4:
+				// the jump is taken from inside a let / letseq binding right-hand side: the let's own
+				// scope is already open there and must be popped by the jump
+				g.feat("jump-in-let-binding")
+				k := "let"
+				if g.chance(2, "jlseq") {
+					k = "letseq"
+				}
+				wrapped = &Node{K: k, Names: []string{"t8", "t9"}, Kids: []*Node{NInt(2), wrapped, NTrace(NVar(iv))}}
 			case 0:
 				wrapped = &Node{K: "let", Names: []string{"t9"}, Kids: []*Node{NInt(1), wrapped}}
 			case 1:
